@@ -31,6 +31,7 @@ def main():
         sys.exit(smoke.main())
 
     world = registry.get(a.prop)
+    world.TIER = a.tier
     seed = a.seed
     if seed is None:
         env = os.environ.get("VERIF_SEED", "")
